@@ -1,0 +1,11 @@
+//go:build verif
+
+package config
+
+import "github.com/urfave/cli/v2"
+
+// VerifGetBasic exposes the flag/environment front end (the unexported get)
+// without creating loggers, proxies or TLS state. Verification builds only.
+func VerifGetBasic(ctx *cli.Context) (*Config, error) {
+	return get(ctx)
+}
